@@ -561,88 +561,140 @@ namespace Hostd.Chain
 
 /-- what one block can do to one contract -/
 inductive Ev where
-  | form (rev : Nat)            -- formation confirmed (v2: revision number of the created element)
-  | revise (old new : Nat)      -- revision confirmed: recorded number goes old → new (revert: new → old)
+  | form (rev : Nat)   -- formation confirmed (v2: revision number of the created element)
+  | revise (n : Nat)   -- revision: `n` is the number to record — connecting a block: the new revision on
+                       -- chain; disconnecting it: the revision that was on chain below the block
   | succ | renew | fail
 deriving DecidableEq, Repr
 
 def evApply (T : Table) (h : Nat) (c : Contract) : Ev → Except Fault Contract
   | .form r => fireC T .aForm h (if c.ver = .v2 then { c with confRev := some r } else c)
-  | .revise _ new => .ok (setRev c new)
+  | .revise n => .ok (setRev c n)
   | .succ => fireC T .aSucc h c
   | .renew => fireC T .aRenew h c
   | .fail => fireC T .aFail h c
 
 def evRevert (T : Table) (h : Nat) (c : Contract) : Ev → Except Fault Contract
   | .form _ => fireC T .rForm h (if c.ver = .v2 then { c with confRev := none } else c)
-  | .revise old _ => .ok (setRev c old)
+  | .revise n => .ok (setRev c n)
   | .succ => fireC T .rSucc h c
   | .renew => fireC T .rRenew h c
   | .fail => fireC T .rFail h c
+
+/-- the events of one block for one contract, in the order Apply/RevertContracts process them -/
+def evsApply (T : Table) (h : Nat) (c : Contract) : List Ev → Except Fault Contract
+  | [] => .ok c
+  | e :: es => do
+      let c1 ← evApply T h c e
+      evsApply T h c1 es
+
+def evsRevert (T : Table) (h : Nat) (c : Contract) : List Ev → Except Fault Contract
+  | [] => .ok c
+  | e :: es => do
+      let c1 ← evRevert T h c e
+      evsRevert T h c1 es
 
 /-- RejectContracts as seen by one contract -/
 def rejectC (T : Table) (height : Nat) (c : Contract) : Except Fault Contract :=
   if rejectSel c.ver height c then fireC T .reject 0 c else .ok c
 
-/-- one block connected / disconnected, as seen by one contract (`none`: the block does not touch it) -/
+/-- one block connected / disconnected, as seen by one contract (`[]`: the block does not touch it;
+two events: a v2 contract revised by one transaction and resolved by another of the same block) -/
 inductive HOp where
-  | apply (h : Nat) (e : Option Ev)
-  | revert (h : Nat) (e : Option Ev)
+  | apply (h : Nat) (es : List Ev)
+  | revert (h : Nat) (es : List Ev)
 deriving DecidableEq, Repr
 
 def stepH (T : Table) (rb : Nat) (c : Contract) : HOp → Except Fault Contract
-  | .apply h e => do
-      let c1 ← match e with
-        | none => pure c
-        | some e => evApply T h c e
+  | .apply h es => do
+      let c1 ← evsApply T h c es
       if h ≥ rb then rejectC T (h - rb) c1 else pure c1
-  | .revert h e =>
-      match e with
-      | none => pure c
-      | some e => evRevert T h c e
+  | .revert h es => evsRevert T h c es
 
 /-- processing only the blocks of a chain, oldest first, without the rejection rule -/
-def replaySpec (T : Table) (c0 : Contract) : List (Nat × Option Ev) → Except Fault Contract
+def replaySpec (T : Table) (c0 : Contract) : List (Nat × List Ev) → Except Fault Contract
   | [] => .ok c0
-  | (h, e) :: rest => do
-      let c1 ← match e with
-        | none => pure c0
-        | some e => evApply T h c0 e
+  | (h, es) :: rest => do
+      let c1 ← evsApply T h c0 es
       replaySpec T c1 rest
 
 /-- the event is one consensus can emit for a contract whose chain state is `X` -/
 def evValid (X : Contract) : Ev → Bool
   | .form _ => X.status == .pending
-  | .revise old _ => X.status == .active && X.confRev == some old
+  | .revise _ => X.status == .active
   | .succ => X.status == .active
   | .fail => X.status == .active
   | .renew => X.status == .active && X.ver == .v2
+
+/-- the events one block may carry for one contract: none, one, or — v2 only — a revision followed
+by the resolution (storage proof or renewal) of the revised contract -/
+def evsValid (X : Contract) : List Ev → Bool
+  | [] => true
+  | [e] => evValid X e
+  | [.revise _, .succ] => X.status == .active && X.ver == .v2
+  | [.revise _, .renew] => X.status == .active && X.ver == .v2
+  | _ => false
+
+/-- event `e'` of a disconnected block undoes event `e` the block was connected with on top of the
+chain state `Xb`: the same kind of event; a revision carries the number recorded below the block -/
+def evMatch (Xb : Contract) : Ev → Ev → Bool
+  | .form _, .form _ => true
+  | .revise _, .revise o => Xb.confRev == some o
+  | .succ, .succ => true
+  | .renew, .renew => true
+  | .fail, .fail => true
+  | _, _ => false
+
+def evsMatch (Xb : Contract) : List Ev → List Ev → Bool
+  | [], [] => true
+  | e :: es, e' :: es' => evMatch Xb e e' && evsMatch Xb es es'
+  | _, _ => false
 
 end Hostd.Chain
 
 namespace Hostd.Chain
 
-/-- the event a block's changes carry for contract `(ver,id)` when connected (`revert = false`) or
-disconnected (`revert = true`); `none` when the block does not touch the contract -/
-def eventFor (revert : Bool) (ver : Ver) (id : Nat) (ch : Changes) : Option Ev :=
-  let rv (n : Nat) : Ev := if revert then .revise n 0 else .revise 0 n
+/-- the revision number a list of (id, revision) pairs carries for contract `i` -/
+def revFor (i : Nat) (xs : List (Nat × Nat)) : Option Nat := (xs.find? (·.1 == i)).map (·.2)
+
+def evIf (b : Bool) (e : Ev) : List Ev := if b then [e] else []
+def evOpt (o : Option Nat) (f : Nat → Ev) : List Ev :=
+  match o with
+  | some n => [f n]
+  | none => []
+
+/-- the events a block's changes carry for contract `(ver,id)`, in the order of the stages of
+Apply/RevertContracts (the same function serves connected and disconnected blocks: a disconnected
+block's revision entries carry the previous revision number) -/
+def eventsFor (ver : Ver) (id : Nat) (ch : Changes) : List Ev :=
   match ver with
   | .v1 =>
-    if ch.form1.contains id then some (.form 0)
-    else match ch.rev1.find? (·.1 == id) with
-      | some x => some (rv x.2)
-      | none =>
-        if ch.succ1.contains id then some .succ
-        else if ch.fail1.contains id then some .fail else none
+    evIf (ch.form1.contains id) (.form 0) ++ evOpt (revFor id ch.rev1) .revise ++
+    evIf (ch.succ1.contains id) .succ ++ evIf (ch.fail1.contains id) .fail
   | .v2 =>
-    match ch.form2.find? (·.1 == id) with
-    | some x => some (.form x.2)
-    | none =>
-      match ch.rev2.find? (·.1 == id) with
-      | some x => some (rv x.2)
-      | none =>
-        if ch.succ2.contains id then some .succ
-        else if ch.renew2.contains id then some .renew
-        else if ch.fail2.contains id then some .fail else none
+    evOpt (revFor id ch.form2) .form ++ evOpt (revFor id ch.rev2) .revise ++
+    evIf (ch.succ2.contains id) .succ ++ evIf (ch.renew2.contains id) .renew ++ evIf (ch.fail2.contains id) .fail
+
+/-! ## well-formed blocks, stated through the per-contract events
+
+`wfApplyP X ch`: on top of the best-chain state `X` the block `ch` carries, for every stored contract,
+events consensus can emit for it (`evsValid`), mentions no contract twice in one list and only
+contracts the host stores.  `wfRevertP Xb applied reverted`: the block `reverted` undoes the block
+`applied` that was connected on top of `Xb`.  These are the hypotheses of the C01 theorems
+(`Props/C01.lean`, `Props/C01G.lean`) and what the driver evaluates to classify a generated block. -/
+
+def listsNodupB (ch : Changes) : Bool :=
+  ch.form1.Nodup && (ch.rev1.map (·.1)).Nodup && ch.succ1.Nodup && ch.fail1.Nodup &&
+  (ch.form2.map (·.1)).Nodup && (ch.rev2.map (·.1)).Nodup && ch.succ2.Nodup && ch.renew2.Nodup && ch.fail2.Nodup
+
+def idsExist (X : State) (ch : Changes) : Bool :=
+  (ids1 ch).all (fun i => (findC .v1 i X.cs).isSome) && (ids2 ch).all (fun i => (findC .v2 i X.cs).isSome)
+
+def wfApplyP (X : State) (ch : Changes) : Bool :=
+  listsNodupB ch && idsExist X ch && X.cs.all (fun c => evsValid c (eventsFor c.ver c.id ch))
+
+def wfRevertP (Xb : State) (applied reverted : Changes) : Bool :=
+  listsNodupB reverted && idsExist Xb reverted &&
+  Xb.cs.all (fun c => evsMatch c (eventsFor c.ver c.id applied) (eventsFor c.ver c.id reverted))
 
 end Hostd.Chain
